@@ -743,7 +743,7 @@ def _z3_witness(env, orc, ctx, eps_value):
     """when sampling fails (equality-constrained paths): a z3 model is a true witness provided the
     context has no transcendental atoms"""
     try:
-        m = smt.model(list(orc.path) + [f for f in ctx.facts], 5000)
+        m = smt.model(list(orc.path) + [f for f in ctx.facts], int(os.environ.get("VERIF_WITNESS_MS", "5000")))
     except Exception:
         return None
     if m is None: return None
